@@ -200,6 +200,11 @@ Definition xsys0 (c : cfg) (mf : option N) (dbg : bool) : xsys := mk_xsys (sys0 
 Definition unit_live (p : phase) : bool :=
   match p with PRunning _ | PDelay _ => true | _ => false end.
 
+(* a unit the dispatcher does not (or no longer) know: not started yet, refused at the start,
+   finished, or skipped *)
+Definition unit_gone (p : phase) : bool :=
+  match p with PIdle | PFinished | PRefusedStart | PSkipped => true | _ => false end.
+
 Fixpoint sevents_of (ls : list sevent) : list devent :=
   match ls with
   | [] => []
